@@ -192,3 +192,164 @@ fn c06_k_parity() {
   assert!(t.is_jie() == (index % 2 == 1) && t.is_qi() == (index % 2 == 0), "jie <=> odd index");
   kani::cover!(index == 3, "parity reachable");
 }
+
+// ---- C11: (year*size + index + n)/size carry pattern --------------------------------------------
+// ordinal moves by exactly n whenever the target year is in 1..9999 (outside it the call is refused by
+// SolarYear::from_year's unwrap - not exercised here)
+#[kani::proof]
+#[kani::stub(alloc::fmt::format, stub_format)]
+fn c11_k_halfyear_next() {
+  let y: isize = kani::any(); let i: usize = kani::any(); let n: isize = kani::any();
+  kani::assume(y >= 1 && y <= 9999 && i < 2 && n >= -100000 && n <= 100000);
+  let t = (y as i64) * 2 + i as i64 + n as i64;
+  kani::assume(t >= 2 && t <= 9999 * 2 + 1);
+  let x = SolarHalfYear { year: SolarYear { year: y }, index: i };
+  let r = x.next(n);
+  assert!((r.get_year() as i64) * 2 + r.get_index() as i64 == t && r.get_index() < 2, "half-year ordinal moves by n");
+  kani::cover!(n == -1 && i == 0, "halfyear reachable");
+}
+#[kani::proof]
+#[kani::stub(alloc::fmt::format, stub_format)]
+fn c11_k_season_next() {
+  let y: isize = kani::any(); let i: usize = kani::any(); let n: isize = kani::any();
+  kani::assume(y >= 1 && y <= 9999 && i < 4 && n >= -100000 && n <= 100000);
+  let t = (y as i64) * 4 + i as i64 + n as i64;
+  kani::assume(t >= 4 && t <= 9999 * 4 + 3);
+  let x = SolarSeason { year: SolarYear { year: y }, index: i };
+  let r = x.next(n);
+  assert!((r.get_year() as i64) * 4 + r.get_index() as i64 == t && r.get_index() < 4, "season ordinal moves by n");
+  kani::cover!(n == -1 && i == 0, "season reachable");
+}
+#[kani::proof]
+#[kani::stub(alloc::fmt::format, stub_format)]
+fn c11_k_month_next() {
+  let y: isize = kani::any(); let m: usize = kani::any(); let n: isize = kani::any();
+  kani::assume(y >= 1 && y <= 9999 && m >= 1 && m <= 12 && n >= -200000 && n <= 200000);
+  let t = (y as i64) * 12 + (m as i64 - 1) + n as i64;
+  kani::assume(t >= 12 && t <= 9999 * 12 + 11);
+  let x = SolarMonth { parent: AbstractTyme::new(), year: SolarYear { year: y }, month: m };
+  let r = x.next(n);
+  assert!((r.get_year() as i64) * 12 + (r.get_month() as i64 - 1) == t && r.get_month() >= 1 && r.get_month() <= 12, "month ordinal moves by n");
+  kani::cover!(n == -1 && m == 1, "month reachable");
+}
+#[kani::proof]
+#[kani::stub(alloc::fmt::format, stub_format)]
+fn c11_k_year_next() {
+  let y: isize = kani::any(); let n: isize = kani::any();
+  kani::assume(y >= 1 && y <= 9999 && n >= -20000 && n <= 20000 && y + n >= 1 && y + n <= 9999);
+  let r = SolarYear { year: y }.next(n);
+  assert!(r.get_year() == y + n, "year moves by n");
+  kani::cover!(n == -9998, "year reachable");
+}
+
+// ---- C12: clock arithmetic ------------------------------------------------------------------------
+// (SolarTime::next and SolarTime::subtract are Verus obligations: verus/c12_time_next.rs; the Kani form of the
+//  carry arithmetic did not finish in 14 min - 64-bit division circuits)
+static mut REC_SUB: isize = 0;
+fn stub_day_subtract(_a: &SolarDay, _b: SolarDay) -> isize { let v: isize = kani::any(); kani::assume(v >= -4000000 && v <= 4000000); unsafe { REC_SUB = v; } v }
+#[kani::proof]
+#[kani::stub(alloc::fmt::format, stub_format)]
+#[kani::stub(SolarDay::subtract, stub_day_subtract)]
+fn c12_k_time_subtract() {
+  let a = SolarTime { day: any_valid_day(), hour: kani::any(), minute: kani::any(), second: kani::any() };
+  let b = SolarTime { day: any_valid_day(), hour: kani::any(), minute: kani::any(), second: kani::any() };
+  kani::assume(a.hour < 24 && a.minute < 60 && a.second < 60 && b.hour < 24 && b.minute < 60 && b.second < 60);
+  let r = a.subtract(b);
+  let days = unsafe { REC_SUB } as i64;
+  let want = days * 86400 + spec::sod(a.hour as i64, a.minute as i64, a.second as i64) - spec::sod(b.hour as i64, b.minute as i64, b.second as i64);
+  assert!(r as i64 == want, "difference == 86400*day difference + difference of seconds-of-day");
+  kani::cover!(r < 0, "time_subtract reachable");
+}
+
+#[kani::proof]
+#[kani::stub(alloc::fmt::format, stub_format)]
+fn c12_k_time_order() {
+  let a = SolarTime { day: any_valid_day(), hour: kani::any(), minute: kani::any(), second: kani::any() };
+  let b = SolarTime { day: any_valid_day(), hour: kani::any(), minute: kani::any(), second: kani::any() };
+  kani::assume(a.hour < 24 && a.minute < 60 && a.second < 60 && b.hour < 24 && b.minute < 60 && b.second < 60);
+  let key = |t: &SolarTime| ((t.get_year() as i64) * 10000 + (t.get_month() as i64) * 100 + t.get_day() as i64, spec::sod(t.hour as i64, t.minute as i64, t.second as i64));
+  let (ka, kb) = (key(&a), key(&b));
+  assert!(a.is_before(b) == (ka < kb), "is_before == lexicographic (date, second of day)");
+  assert!(a.is_after(b) == (ka > kb), "is_after == lexicographic (date, second of day)");
+  assert!((a == b) == (ka == kb), "eq");
+  kani::cover!(ka.0 == kb.0 && ka.1 < kb.1, "time_order reachable");
+}
+
+#[kani::proof]
+#[kani::stub(alloc::fmt::format, stub_format)]
+fn c12_k_time_accept() {
+  let y: isize = kani::any(); let m: usize = kani::any(); let d: usize = kani::any();
+  kani::assume(spec::valid_date(y as i64, m as i64, d as i64));
+  let h: usize = kani::any(); let mi: usize = kani::any(); let s: usize = kani::any();
+  let r = SolarTime::new(y, m, d, h, mi, s);
+  assert!(r.is_ok() == (h < 24 && mi < 60 && s < 60), "an instant is accepted exactly when hour<24, minute<60, second<60");
+  if let Ok(t) = r { assert!(t.get_hour() == h && t.get_minute() == mi && t.get_second() == s && t.get_day() == d, "fields kept"); }
+  kani::cover!(h == 23 && mi == 59 && s == 59, "time_accept reachable");
+}
+
+// instant -> Julian date -> instant, every second of the day (sliced by year)
+fn c12_rt_body(ylo: isize, yhi: isize) {
+  let y: isize = kani::any(); let m: usize = kani::any(); let d: usize = kani::any();
+  kani::assume(y >= ylo && y <= yhi);
+  kani::assume(spec::valid_date(y as i64, m as i64, d as i64));
+  let h: usize = kani::any(); let mi: usize = kani::any(); let s: usize = kani::any();
+  kani::assume(h < 24 && mi < 60 && s < 60);
+  let t = SolarTime { day: SolarDay { month: SolarMonth { parent: AbstractTyme::new(), year: SolarYear { year: y }, month: m }, day: d }, hour: h, minute: mi, second: s };
+  let r = t.get_julian_day().get_solar_time();
+  assert!(r == t, "instant -> Julian date -> instant is the identity");
+  kani::cover!(h == 23 && mi == 59 && s == 59, "jd roundtrip reachable");
+}
+//@SLICES prefix=c12_k_jd_roundtrip call=c12_rt_body lo=1 hi=9999 n=100
+
+// ---- C13: containers ------------------------------------------------------------------------------
+#[kani::proof]
+#[kani::stub(alloc::fmt::format, stub_format)]
+#[kani::unwind(14)]
+fn c13_k_year_parts() {
+  let y: isize = kani::any();
+  kani::assume(y >= 1 && y <= 9999);
+  let sy = SolarYear { year: y };
+  let ms = sy.get_months();
+  assert!(ms.len() == 12, "12 months");
+  let i: usize = kani::any(); kani::assume(i < 12);
+  assert!(ms[i].get_year() == y && ms[i].get_month() == i + 1, "months in order");
+  let ss = sy.get_seasons();
+  assert!(ss.len() == 4, "4 seasons");
+  let j: usize = kani::any(); kani::assume(j < 4);
+  assert!(ss[j].get_year() == y && ss[j].get_index() == j, "seasons in order");
+  let hs = sy.get_half_years();
+  assert!(hs.len() == 2 && hs[0].get_index() == 0 && hs[1].get_index() == 1 && hs[0].get_year() == y && hs[1].get_year() == y, "2 half-years in order");
+  // nesting
+  let sm = ss[j].get_months();
+  assert!(sm.len() == 3, "3 months per season");
+  let k: usize = kani::any(); kani::assume(k < 3);
+  assert!(sm[k].get_year() == y && sm[k].get_month() == j * 3 + k + 1, "season lists its months");
+  assert!(ms[i].get_season().get_index() == i / 3 && ms[i].get_season().get_year() == y, "month knows its season");
+  let h: usize = kani::any(); kani::assume(h < 2);
+  let hm = hs[h].get_months();
+  assert!(hm.len() == 6, "6 months per half-year");
+  let q: usize = kani::any(); kani::assume(q < 6);
+  assert!(hm[q].get_year() == y && hm[q].get_month() == h * 6 + q + 1, "half-year lists its months");
+  let hq = hs[h].get_seasons();
+  assert!(hq.len() == 2 && hq[0].get_index() == h * 2 && hq[1].get_index() == h * 2 + 1 && hq[0].get_year() == y, "half-year lists its seasons");
+  kani::cover!(y == 1582 && i == 9, "year_parts reachable");
+}
+
+#[kani::proof]
+#[kani::stub(alloc::fmt::format, stub_format)]
+#[kani::unwind(33)]
+fn c13_k_month_days() {
+  let y: isize = kani::any(); let m: usize = kani::any();
+  kani::assume(y >= 1 && y <= 9999 && m >= 1 && m <= 12);
+  let sm = SolarMonth { parent: AbstractTyme::new(), year: SolarYear { year: y }, month: m };
+  let ds = sm.get_days();
+  assert!(ds.len() as i64 == spec::month_len(y as i64, m as i64), "month lists as many days as it has");
+  let i: usize = kani::any(); kani::assume(i < ds.len());
+  let d = ds[i];
+  assert!(d.get_year() == y && d.get_month() == m, "listed days belong to the month");
+  assert!(spec::valid_date(y as i64, m as i64, d.get_day() as i64), "listed days exist");
+  // i-th existing date of the month: day number i+1, plus the ten dropped days in October 1582
+  let want = if y == 1582 && m == 10 && i >= 4 { i + 11 } else { i + 1 };
+  assert!(d.get_day() == want, "days in order, none skipped");
+  kani::cover!(y == 1582 && m == 10 && i == 4, "month_days reachable (1582-10-15)");
+}
